@@ -31,7 +31,12 @@ TRUSTED_BASE = BASE_TRUSTED + [
 RULE = ('catalogue rows: seeded sample (quick) / all 2593 (thorough) x 9 wavelengths across [min,max] incl. end points, '
         'scalar and array calls, n and k; data files re-read independently (yaml + own table parser); '
         'lookups: distinct catalogue names and (category, reference) pairs; Levenshtein: catalogue strings and random edits; '
-        'model glass: Schott catalogue (n_d, V_d) with jitter; non-trivial = finite index returned')
+        'model glass: Schott catalogue (n_d, V_d) with jitter; non-trivial = finite index returned; '
+        'always included: rows on which every coefficient position of their formula matters (most non-zero / distinct / '
+        'longest coefficient lists per formula, every formula-4 row with c6 != 0), formulas 8/9, the two-section file; '
+        'history independence: Material(...) constructed repeatedly in one process - every case-colliding catalogue name pair '
+        'in both orders with repeats, the same name under different references / wavelength bounds / robust flags - each call '
+        'judged against the stateless lookup model')
 PARTIAL = [
     'exact_lookup_partial: proved for the lower-cased strings and a literal substring filter; the gaps to the stated property '
     'are the findings D14 (regex filter) and D14b (case collision)',
@@ -340,7 +345,7 @@ def _index_rows(ctx):
     return idx
 
 
-def check_index(ctx, idx=None, tol=1e-9, shard=12):
+def check_index(ctx, idx=None, tol=1e-9, shard=24):
     """catalogue rows: implementation vs Coq file model (regenerated kernels) vs Coq spec, then the Python oracle"""
     df = _catalog()
     idx = _index_rows(ctx) if idx is None else idx
@@ -381,7 +386,7 @@ def check_index(ctx, idx=None, tol=1e-9, shard=12):
                     lines.append('false' if im.get('k_arr') is None else f'close {H(1e-14)} {H(pk)} {H(im["k_arr"][j])}')
         cur.append(f'(let secs := {sec_txt} in\n  ' + ' && '.join(lines) + ')')
         sizes += sum(len(s[1]) for s in secs if s[0] in ('n', 'k', 'nk'))
-        if len(cur) >= shard or sizes > 6000:
+        if len(cur) >= shard or sizes > 9000:
             bodies.append(cur)
             cur, sizes = [], 0
     if cur:
@@ -581,7 +586,7 @@ def check_lookup_model(ctx):
         res['error'] = str(e)
         return res
     rows_txt = ''
-    per = max(1, (len(qs) + 5) // 6) if ctx.quick() else max(1, (len(qs) + 15) // 16)
+    per = max(1, (len(qs) + 3) // 4) if ctx.quick() else max(1, (len(qs) + 15) // 16)
     bodies, groups = [], []
     for s in range(0, len(qs), per):
         lines = []
@@ -802,7 +807,7 @@ def check_lookup_history(ctx, with_coq=True):
     try:
         low = _lower_rows_txt()
         imp = IMPORTS + '\n' + _rows_vo(low)
-        per = max(1, (len(lines) + 3) // 4)
+        per = max(1, (len(lines) + 1) // 2)
         bodies = ['Eval vm_compute in (report [\n' + ';\n'.join(lines[s:s + per]) + '\n]).\n'
                   for s in range(0, len(lines), per)]
         out = vlib.run_cases('C18hist', imp, bodies)
@@ -827,7 +832,8 @@ def _lower_rows_txt():
     df = _catalog()
     low = [[str(x).lower() for x in (c, cf, rf, nm, fn)] for c, cf, rf, nm, fn in
            zip(df['category_name'], df['category_name_full'], df['reference'], df['name'], df['filename'])]
-    return 'Definition rows : list row := [\n' + ';\n'.join(
+    # decoded once when the library is compiled (vm_compute), so that the shards do not decode 230k characters per query
+    return 'Definition rows : list row := Eval vm_compute in [\n' + ';\n'.join(
         f'mkRow {coq_str(l[0])} {coq_str(l[3])} [{"; ".join(coq_str(x) for x in l)}]' for l in low) + '].\n'
 
 
